@@ -123,6 +123,13 @@ def gen_ops(rng, store, defaults, *, n_ops, conf_events, aliasing, options=None,
         r = rng.random()
         if conf_events and rng.random() < 0.3:
             r = 0.99
+        if rng.random() < 0.05:
+            # an assignment the option's type refuses (not a number; not a list): no change, whatever else is going on
+            bad = [n for n in tab.names if tab.types[n] in ('Integer', 'SignedInteger', 'DataSize', 'TimeInterval', 'LineList')]
+            if bad:
+                n = rng.choice(bad)
+                do(['badassign', spell(n), 'not a list' if tab.types[n] == 'LineList' else rng.choice(['plenty', '1x', ''])])
+                continue
         if r < 0.22 and scalars:
             n = rng.choice(scalars)
             v = rng.choice(SCALARS[n])
@@ -295,6 +302,8 @@ def spec_trace(case, quirks=(), affected=None):
             v = cfg.wire_typed(tab.types[n], op[2])
             pending[n] = ['l', list(v), 'ListWrapper'] if isinstance(v, list) else ['s', cfg.canon_text(tab.types[n], v), v]
             changes[n] += 1
+        elif k == 'badassign':
+            o.append(['exc', 'ValueError'])       # refused: nothing changed, nothing pending because of it
         elif k == 'lop':
             n = tab.real(op[1])
             changes[n] += 1
